@@ -17,18 +17,22 @@
 
   The result is a `Raw`: what PyYAML composes when the dumped text is parsed again (tag kind, decoded
   constructor keywords, children).  Text-level emission (quoting, the unquoted `repr` of tagged
-  scalars) is not modelled; `.error` records the cases in which there is no such tree:
-    clearCrash      `!clear` cannot be dumped (ClearNode has no `_get_value`: AttributeError)
-    pathNoRef       `!path` without reference point is written as a mapping that `!path` re-parses nested
+  scalars) is not modelled; `.error` records the one case in which there is no such tree:
     noMetadataForm  metadata on a node kind whose tag has no `:metadata` form (`!append`, `!prev`, `!import`,
-                    `!include`): the emitted tag `!append:<hex>` has no constructor
-    safeTag         `safe=True` as the only entry is written as `!safe`, which has no constructor
+                    `!include`, `!fstr`): the emitted tag `!append:<hex>` has no constructor
+  Repaired in /repo and followed here: `!clear` is dumped as a value-less `!clear[:metadata]`; an
+  f-string node has its own tag `!fstr`; `safe=True` as the only entry is written as `!safe`, which the
+  loader reads as the keyword `safe=True` (in `Raw`: the plain tag with `safe := some true`); a `!path`
+  without reference point is written as the mapping `{values, ref_point: '', source_file}` which the
+  `!path` constructor now takes as keyword arguments — with metadata the tag is `!path:<hex>`, the
+  multi-constructor reads the hex as reference point, the mapping's own `ref_point: ''` overrides it
+  and the metadata is silently dropped.
 -/
 import AY.Model.Construct
 namespace AY
 
 inductive DumpErr where
-  | clearCrash | pathNoRef | noMetadataForm | safeTag
+  | noMetadataForm
   deriving DecidableEq, Repr, Inhabited
 
 /-- the inferable entries of `dumper.metadata[-1]` (user metadata keys never collide with them) -/
@@ -78,38 +82,35 @@ def representLeaf (st : DStack) (f : Flags) (k : LeafKind) : Except DumpErr Raw 
   let noMd (r : Raw) : Except DumpErr Raw := if kw.isEmpty then .ok r else .error .noMetadataForm
   match k with
   | .scalar .null => .ok (.scalar .null kw .empty)
-  | .scalar v =>
-    if isShortcut false kw && kw.safe == some true then .error .safeTag
-    else .ok (.scalar (plainTag kw) kw (.lit v))
+  | .scalar v => .ok (.scalar (plainTag kw) kw (.lit v))
   | .xref p => .ok (.scalar .xref kw (.text p))
   | .prev p => noMd (.scalar .prev kw (.text p))
   | .eval c => .ok (.scalar .eval kw (.text c))
-  | .fstr c => .ok (.scalar .eval kw (.text c))        -- FStrNode has no tag of its own
+  | .fstr c => noMd (.scalar .fstr kw (.text c))        -- `!fstr` has no `:metadata` form
   | .imp nm => noMd (.scalar .imp kw (.text nm))
   | .required => .ok (.scalar .required kw .empty)
-  | .clear => .error .clearCrash
+  | .clear => .ok (.scalar .clear kw .empty)
   | .incl fs => noMd (.seq .incl kw (fs.map (fun s => Raw.scalar .none {} (.lit (.str s)))))
 
 /-- the composed classes, children already represented -/
 def representComp (k : CompKind) (kw : CtorKw) (seqItems : List Raw) (mapItems : List (Key × Raw)) :
     Except DumpErr Raw :=
-  let plainOK (r : Raw) : Except DumpErr Raw :=
-    if isShortcut false kw && kw.safe == some true then .error .safeTag else .ok r
   match k with
-  | .dict => plainOK (.map (plainTag kw) kw mapItems)
+  | .dict => .ok (.map (plainTag kw) kw mapItems)
   | .call fn => .ok (.map (.call fn) kw mapItems)
   | .bind fn => .ok (.map (.bind fn) kw mapItems)
-  | .list => plainOK (.seq (plainTag kw) kw seqItems)
-  | .stream => plainOK (.seq (plainTag kw) kw seqItems)
+  | .list => .ok (.seq (plainTag kw) kw seqItems)
+  | .stream => .ok (.seq (plainTag kw) kw seqItems)
   | .append => if kw.isEmpty then .ok (.seq .append kw seqItems) else .error .noMetadataForm
   | .extend => .ok (.seq .extend kw seqItems)
   | .path r =>
-    if r = "" then
-      -- bare `!path` takes the dumped mapping as DATA (nested re-parse); with metadata the tag is
-      -- `!path:<hex>`, the multi-constructor reads the hex as reference point, the mapping's own
-      -- `ref_point: ''` overrides it, and the metadata is silently dropped
-      if kw.isEmpty then .error .pathNoRef else .ok (.seq (.path "") {} seqItems)
-    else .ok (.seq (.path r) kw seqItems)
+    -- the dumped mapping {values, ref_point, source_file} becomes keyword arguments of PathNode; for a
+    -- bare `!path` with metadata (`!path:<hex>`) the metadata is silently dropped on re-parse
+    if r = "" then .ok (.seq (.path "") {} seqItems) else .ok (.seq (.path r) kw seqItems)
+
+/-- `source_file` of a re-parsed `!path` node: the dumped mapping carries the original file name as the
+    keyword `source_file`, which wins over `kwargs.setdefault('source_file', <file being parsed>)` -/
+def pathSourceOnReparse (env : Env) (f : Flags) : Option String := f.src.or env.src
 
 /-- whether the class has a tag of its own (`ayns.tag` is not None) -/
 def CompKind.tagged : CompKind → Bool
